@@ -1,3 +1,4 @@
+import TmcgProps.C12Parse
 import TmcgProofs.Safety
 /-
   C12 — Untrusted input never corrupts memory or kills the process  (partial by nature).
